@@ -134,6 +134,8 @@ class Gen:
                 self.emit("m riter %d" % tid)
             elif x < 0.30:
                 self.emit("m insert %d %d %d" % (tid, self.key(universe), r.randrange(1000)))
+                if prof == "limits":
+                    self.emit("m stats %d" % tid)      # a refused expansion is judged against the load factor it saw
             elif x < 0.42:
                 self.emit("m erase %d %d" % (tid, self.key(universe)))
             elif x < 0.50:
@@ -164,7 +166,7 @@ class Gen:
                 elif self.workers:
                     self.emit("m setworkers %d 0" % tid)
                     self.workers = 0
-                elif prof == "mixed" and cfg.kind != 2 and r.random() < 0.25:
+                elif prof in ("mixed", "locked") and cfg.kind != 2 and r.random() < 0.25:
                     self.workers = r.choice([1, 2, 3, 5])
                     self.emit("m setworkers %d %d" % (tid, self.workers))
                 elif r.random() < 0.5:
@@ -530,6 +532,7 @@ class RefMap:
         self.pol = 0
         self.transferred = {}
         self.size_req = {}
+        self.lftl_pending = {}
         self.read_settings = {}
         self.alloc = {}
         self.exists = set()
@@ -686,6 +689,10 @@ class RefMap:
             if kind == "lftl" and op in ("insert", "ioa", "upsert", "uprase", "ltinsert", "ltindex"):
                 if self.mlf[tid] == 0:
                     self.fail("C10", i, line, got, "load_factor_too_low although the minimum load factor is 0")
+                    self.fail("C15", i, line, got, "load_factor_too_low although the minimum load factor is 0")
+                # judged at the next `stats` of this table (a refused expansion changes nothing, so size and capacity are
+                # still those the refusal saw): the load factor must have been BELOW the minimum, not equal to it
+                self.lftl_pending[tid] = (i, line, got)
             if kind == "maxhp" and self.mhp[tid] == NOMAX:
                 self.fail("C10", i, line, got, "maximum_hashpower_exceeded although no maximum is set")
             if kind == "oor":
@@ -713,6 +720,8 @@ class RefMap:
         ok = g[0] == "ok"
         if op not in ("digest", "inv", "stats", "rehash", "reserve"):
             self.size_req.pop(tid, None)
+        if op not in ("digest", "inv", "stats"):
+            self.lftl_pending.pop(tid, None)
         val = g[1] if len(g) > 1 else None
         calls = [x[5:] for x in g if x.startswith("call=")]
 
@@ -801,6 +810,15 @@ class RefMap:
             expect(self.mhp[tid] == NOMAX or hp <= self.mhp[tid], "hashpower() exceeds maximum_hashpower()" + tail, sp)
             expect(size <= (1 << hp) * self.cfg.S, "more elements than capacity", "C05")
             self.last_hp = hp
+            if tid in self.lftl_pending:
+                li, lline, lgot = self.lftl_pending.pop(tid)
+                lf = float(size) / float((1 << hp) * self.cfg.S)
+                mlf = struct.unpack("<d", struct.pack("<Q", self.mlf[tid]))[0]
+                if not lf < mlf:
+                    why = ("load_factor_too_low thrown although load_factor() = %d/%d = %r is not below minimum_load_factor() = %r "
+                           "(an automatic expansion may be refused only BELOW the minimum)" % (size, (1 << hp) * self.cfg.S, lf, mlf))
+                    self.fail("C10", li, lline, lgot, why)
+                    self.fail("C15", li, lline, lgot, why)
         elif op == "setmlf":
             x = struct.unpack("<d", struct.pack("<Q", int(w[2])))[0]
             expect(0.0 <= x <= 1.0, "out-of-domain minimum load factor accepted", "C10")
